@@ -7,7 +7,7 @@ from core import vloop
 from e2e import common, fsck as fsckmod, run_e2e, runner, scenario
 
 EXPECTED = ["C03_publish_prefix", "C03_publish_final", "C03_no_inplace_write", "C03_download_no_inplace",
-            "C03_pool_untouched"]
+            "C03_pool_untouched", "C03_order", "C03_delete_after_live"]
 LEVEL = "proof"
 RULE = ("history = fault-free mirror of V1, then a run against V2 = evolve(V1) under a fault-plan class (none, transient, "
         "persistent-required) and a PRNG schedule; at EVERY filesystem mutation the real code attempts (audit hook: open-for-"
